@@ -19,7 +19,7 @@ DESIGN_REF = 'DESIGN.md section 3, C02'
 
 FRAMES = [('none', None), ('slice', slice(1, 4)), ('step', slice(0, 6, 2)), ('list', [0, 2, 3]), ('ndarray', 'np:4,1'), ('range', range(2, 5)), ('single', [3]),
           ('unsorted', [0, 2, 1, 3]), ('repeat', [2, 4, 4, 5]), ('nd-unsorted', 'np:1,3,2,4'), ('ellipsis', Ellipsis), ('neg', slice(-3, None)),
-          ('range-desc', range(5, -1, -1)), ('range-neg', range(-3, 0)), ('list-neg', [-1, 0, -2]), ('slice-rev', slice(None, None, -1)), ('nd-neg', 'np:-1,2')]
+          ('range-desc', range(5, -1, -1)), ('range-neg', range(-3, 0)), ('list-neg', [-1, 0, -2]), ('slice-rev', slice(None, None, -1)), ('nd-neg', 'np:-1,2'), ('slice-rev-step', slice(4, None, -2))]
 CHAINS = [[], ['affine'], ['affine', 'cube_minus'], ['cube_minus', 'affine'], ['drop_first'], ['pairsum', 'affine'], ['square'], ['serialize_bit'], ['drop_first', 'pairsum', 'cube_minus']]
 
 
